@@ -40,6 +40,12 @@ func C02(p *core.Program, r *core.Report) {
 			}
 			fn = p.Inlined(ws[0])
 			label = core.ShortKey(owner) + " (recursive worker)"
+		} else if key == domutilPkg+".WalkNodes" {
+			fn = walkerBody(p, r, "O1")
+			if fn == nil {
+				continue
+			}
+			label = "internal/domutil.WalkNodes"
 		} else {
 			fn = mustInl(p, r, "O1", key)
 			if fn == nil {
